@@ -655,14 +655,13 @@ package graph
 //@     && forall(k, any, imp(in(k, fin), has(visited, k)))
 
 // the certificate on the finite part (S0, S1), the frozen part (S4) and the tentative part
-//@ ghost dCert(g *Graph, qi ItemM, visited VisitM, s any) bool =
-//@     dd(qi, s) == 0 && pp(qi, s) == nil && imp(cnt > 0, in(s, fin))
-//@     && forall(k, any, imp(in(k, fin), 0 <= dd(qi, k) && dd(qi, k) <= (cnt - 1) * 1048576))
-//@     && forall(k, any, imp(in(k, fin) && k != s, pp(qi, k) != nil && in(pp(qi, k), fin) && edge(g, pp(qi, k), k) && dd(qi, k) == dd(qi, pp(qi, k)) + wgt(g, pp(qi, k), k)))
-//@     && forall(k, any, imp(has(g.hash, k) && !in(k, fin) && !frozen && k != s, ite(pp(qi, k) == nil, dd(qi, k) == 2147483647, in(pp(qi, k), fin) && edge(g, pp(qi, k), k) && dd(qi, k) == dd(qi, pp(qi, k)) + wgt(g, pp(qi, k), k))))
-//@     && forall(k, any, imp(has(g.hash, k) && !in(k, fin) && frozen, pp(qi, k) == nil || !in(pp(qi, k), fin)))
-//@     && imp(!frozen, forall(k, any, imp(has(visited, k), in(k, fin))))
-//@     && forall(a, any, k, any, imp(in(a, fin) && has(g.hash, k) && !has(visited, k) && !frozen, dd(qi, a) <= dd(qi, k)))
+//@ ghost dC0(g *Graph, qi ItemM, visited VisitM, s any) bool = dd(qi, s) == 0 && pp(qi, s) == nil && imp(cnt > 0, in(s, fin)) && imp(has(visited, s), in(s, fin)) && has(g.hash, s)
+//@ ghost dC1(g *Graph, qi ItemM, visited VisitM, s any) bool = forall(k, any, imp(in(k, fin), 0 <= dd(qi, k) && dd(qi, k) <= (cnt - 1) * 1048576))
+//@ ghost dC2(g *Graph, qi ItemM, visited VisitM, s any) bool = forall(k, any, imp(in(k, fin) && k != s, pp(qi, k) != nil && in(pp(qi, k), fin) && edge(g, pp(qi, k), k) && dd(qi, k) == dd(qi, pp(qi, k)) + wgt(g, pp(qi, k), k)))
+//@ ghost dC3(g *Graph, qi ItemM, visited VisitM, s any) bool = forall(k, any, imp(has(g.hash, k) && !in(k, fin) && !frozen && k != s, ite(pp(qi, k) == nil, dd(qi, k) == 2147483647, in(pp(qi, k), fin) && edge(g, pp(qi, k), k) && dd(qi, k) == dd(qi, pp(qi, k)) + wgt(g, pp(qi, k), k))))
+//@ ghost dC4(g *Graph, qi ItemM, visited VisitM, s any) bool = forall(k, any, imp(has(g.hash, k) && !in(k, fin) && frozen, pp(qi, k) == nil || !in(pp(qi, k), fin)))
+//@ ghost dC5(g *Graph, qi ItemM, visited VisitM, s any) bool = imp(!frozen, forall(k, any, imp(has(visited, k), in(k, fin))))
+//@ ghost dC6(g *Graph, qi ItemM, visited VisitM, s any) bool = forall(a, any, k, any, imp(in(a, fin) && has(g.hash, k) && !has(visited, k) && !frozen, dd(qi, a) <= dd(qi, k)))
 
 //@ func (*Graph).Dijkstra
 //@   requires wf(g) && !has(g.hash, nil) && has(g.hash, hc(src)) && weightsOK(g) && len(g.hash) <= 2047
@@ -685,14 +684,31 @@ package graph
 //@   loop 1 invariant forall(x, *distQueueItem, imp(inq(queue, x), in(x.v, seen1) && queueItem[x.v] == x))
 //@   loop 2 invariant graphKept() && queueItem != nil && visited != nil && srchash == hc(src) && idxinv(queue) && keysOK(queue) && cnt >= 0 && cnt + len(queue) == len(g.hash)
 //@   loop 2 invariant dStruct(g, queueItem, queue, visited)
-//@   loop 2 invariant dCert(g, queueItem, visited, srchash)
+//@   loop 2 invariant dC0(g, queueItem, visited, srchash)
+//@   loop 2 invariant dC1(g, queueItem, visited, srchash)
+//@   loop 2 invariant dC2(g, queueItem, visited, srchash)
+//@   loop 2 invariant dC3(g, queueItem, visited, srchash)
+//@   loop 2 invariant dC4(g, queueItem, visited, srchash)
+//@   loop 2 invariant dC5(g, queueItem, visited, srchash)
+//@   loop 2 invariant dC6(g, queueItem, visited, srchash)
 //@   loop 2 invariant forall(a, any, b, any, imp(in(a, fin) && edge(g, a, b), dd(queueItem, b) <= dd(queueItem, a) + wgt(g, a, b) && (in(b, fin) || !frozen)))
 //@   loop 3 invariant graphKept() && queueItem != nil && visited != nil && srchash == hc(src) && idxinv(queue) && keysOK(queue) && cnt >= 1 && cnt + len(queue) == len(g.hash)
 //@   loop 3 invariant u != nil && has(g.hash, u.v) && queueItem[u.v] == u && has(visited, u.v) && !inq(queue, u) && rmap3 == g.adjacencyOut[u.v] && (u.distance < 2147483647) == in(u.v, fin) && imp(!in(u.v, fin), frozen)
 //@   loop 3 invariant dStruct(g, queueItem, queue, visited)
-//@   loop 3 invariant dCert(g, queueItem, visited, srchash)
+//@   loop 3 invariant dC0(g, queueItem, visited, srchash)
+//@   loop 3 invariant dC1(g, queueItem, visited, srchash)
+//@   loop 3 invariant dC2(g, queueItem, visited, srchash)
+//@   loop 3 invariant dC3(g, queueItem, visited, srchash)
+//@   loop 3 invariant dC4(g, queueItem, visited, srchash)
+//@   loop 3 invariant dC5(g, queueItem, visited, srchash)
+//@   loop 3 invariant dC6(g, queueItem, visited, srchash)
 //@   loop 3 invariant forall(a, any, b, any, imp(in(a, fin) && edge(g, a, b) && (a != u.v || in(b, seen3)), dd(queueItem, b) <= dd(queueItem, a) + wgt(g, a, b) && (in(b, fin) || !frozen)))
 //@   loop 3 invariant forall(k, any, imp(has(g.hash, k) && !has(visited, k) && in(u.v, fin), u.distance <= dd(queueItem, k)))
 //@   loop 4 invariant graphKept() && fresh(distTo) && fresh(edgeTo) && distTo != nil && edgeTo != nil && rmap4 == queueItem && srchash == hc(src)
-//@   loop 4 invariant dStruct(g, queueItem, queue, visited) && dCert(g, queueItem, visited, srchash) && len(queue) == 0
+//@   loop 4 invariant dStruct(g, queueItem, queue, visited) && len(queue) == 0 && cnt <= 2047
+//@   loop 4 invariant dC0(g, queueItem, visited, srchash)
+//@   loop 4 invariant dC1(g, queueItem, visited, srchash)
+//@   loop 4 invariant dC2(g, queueItem, visited, srchash)
+//@   loop 4 invariant dC4(g, queueItem, visited, srchash)
+//@   loop 4 invariant forall(k, any, imp(has(g.hash, k), has(visited, k)))
 //@   loop 4 invariant forall(k, any, has(distTo, k) == in(k, seen4) && has(edgeTo, k) == in(k, seen4) && imp(in(k, seen4), has(g.hash, k) && distTo[k] == dd(queueItem, k) && edgeTo[k] == g.hash[pp(queueItem, k)]))
